@@ -865,7 +865,15 @@ pub fn c10(tier: &str, flavor: Flavor) -> Spec {
         for buf in [1usize, 8] {
             let cfg = Cfg { buffer_size: buf, ..Cfg::default() };
             let small = threads.len() == 2 && threads.iter().all(|t| t.len() == 1);
-            let b: &[usize] = if small { if quick { &[2] } else { &[3] } } else if quick { &[1] } else { &[2] };
+            let b: &[usize] = if small {
+                if quick { &[2] } else { &[3] }
+            } else if threads.len() > 2 {
+                if quick { &[0] } else { &[1] }
+            } else if quick {
+                &[1]
+            } else {
+                &[2]
+            };
             jobs.push(job(conc(&cfg, flavor, &[], threads.clone()), b, "c10-term"));
         }
     }
@@ -1182,9 +1190,283 @@ pub fn oracle_for(id: &str) -> Option<OracleFn> {
         "C10" => o_c10,
         "C11" => o_c11,
         "C12" => o_c12,
+        "C15" => o_c15,
         "C16" => o_c16,
         "C17" => o_c17,
+        "C20" => o_c20,
         "C18" => o_c18,
         _ => return None,
     })
+}
+
+// ------------------------------------------------------------------------------------------------
+// builder errors (C20)
+
+pub fn expected_build_error(cfg: &Cfg) -> Option<&'static str> {
+    if cfg.num_counters == 0 {
+        Some("InvalidNumCounters")
+    } else if cfg.max_cost == 0 {
+        Some("InvalidMaxCost")
+    } else if cfg.buffer_size == 0 {
+        Some("InvalidBufferSize")
+    } else {
+        None
+    }
+}
+
+pub fn o_build_error(p: &Program, err: &str) -> Vec<Finding> {
+    match expected_build_error(&p.cfg) {
+        Some(e) if err == e => vec![],
+        Some(e) => vec![("wrong-builder-error".to_string(), format!("configuration {:?} was rejected with {} instead of {}", p.cfg, err, e))],
+        None => vec![("config-rejected".to_string(), format!("the builder rejected an acceptable configuration with {} ({:?})", err, p.cfg))],
+    }
+}
+
+// ------------------------------------------------------------------------------------------------
+// C20
+
+fn o_c20(p: &Program, t: &Trace) -> Vec<Finding> {
+    let mut out = Vec::new();
+    if let Some(e) = expected_build_error(&p.cfg) {
+        out.push(("invalid-config-accepted".to_string(), format!("the builder accepted a configuration that must be rejected with {}", e)));
+        return out;
+    }
+    let fin = match t.snaps.iter().rev().find(|s| s.quiescent) {
+        Some(s) => s,
+        None => return out,
+    };
+    if fin.workers.1 != 0 {
+        out.push(("worker-died".to_string(), format!("{} of {} background workers have terminated although the cache was never closed", fin.workers.1, fin.workers.0)));
+    }
+    // the final part of the workload: S; W; I(7); S
+    let mut recs: Vec<&Rec> = t.recs.iter().collect();
+    recs.sort_by_key(|r| r.call);
+    if let Some(w) = recs.iter().rev().find(|r| r.op == Op::Wait) {
+        if w.res != Res::Unit {
+            out.push(("wait-failed-on-idle-cache".to_string(), format!("wait() on a quiescent cache returned {:?}", w.res)));
+        }
+    }
+    if let Some(i) = recs.iter().rev().find(|r| matches!(r.op, Op::Ins { k: 7, .. })) {
+        if i.res != Res::Bool(true) {
+            out.push(("insert-refused-on-idle-cache".to_string(), format!("an insert on a quiescent cache returned {:?}", i.res)));
+        } else {
+            let v = i.wrote.unwrap();
+            let resident = fin.entries.iter().any(|e| e.value == v);
+            let handed = t.ledger.iter().any(|e| e.val == Some(v));
+            if !resident && !handed {
+                out.push(("fresh-insert-not-processed".to_string(), format!("{:?} was accepted on a quiescent cache but was neither applied nor handed to a callback (dead worker?)", v)));
+            }
+        }
+    }
+    out.extend(o_agree(p, t));
+    out.extend(o_policy(p, t));
+    out
+}
+
+pub fn c20(tier: &str, flavor: Flavor) -> Spec {
+    let quick = tier == "quick";
+    let mut jobs = Vec::new();
+    let ncs: Vec<usize> = if quick { (1..=8).chain(63..=70).collect() } else { (1..=70).collect() };
+    let workload = vec![
+        ins(1, 1, 0),
+        ins(2, 0, 0),
+        ins(3, 1000, 0),
+        Op::Get { k: 1 },
+        Op::Get { k: 9 },
+        Op::Settle,
+        Op::Mut { k: 1 },
+        ins(1, 2, 0),
+        Op::Rem { k: 2 },
+        ins(4, 1, 500),
+        ins(5, 1, 0),
+        ins(6, 1, 0),
+        Op::Get { k: 4 },
+        Op::Ttl { k: 4 },
+        Op::Settle,
+        Op::Adv { ms: 1500 },
+        Op::Settle,
+        Op::Adv { ms: 2000 },
+        Op::Settle,
+        Op::Get { k: 4 },
+        Op::Pres { k: 5, c: 3 },
+        Op::MaxCost { m: 3 },
+        ins(8, 1, 0),
+        Op::Settle,
+        Op::Clear,
+        ins(5, 1, 0),
+        Op::Settle,
+        Op::Wait,
+        ins(7, 1, 0),
+        Op::Settle,
+    ];
+    for &nc in &ncs {
+        for max_cost in [-1i64, 1, 5, 100] {
+            for buffer_size in [1usize, 2, 8] {
+                for buffer_items in [0usize, 1, 2, 64] {
+                    for metrics in [false, true] {
+                        for ignore in [true, false] {
+                            for cleanup_ms in [1u64, 500, 2000] {
+                                if quick && (nc > 8 && nc < 63) {
+                                    continue;
+                                }
+                                let cfg = Cfg {
+                                    num_counters: nc,
+                                    max_cost,
+                                    buffer_size,
+                                    buffer_items,
+                                    metrics,
+                                    ignore_internal_cost: ignore,
+                                    cleanup_ms,
+                                    ..Cfg::default()
+                                };
+                                jobs.push(job(single(&cfg, flavor, workload.clone()), &[0], "c20"));
+                            }
+                        }
+                    }
+                }
+            }
+        }
+    }
+    // zero parameters are rejected
+    for (nc, mc, bs) in [(0usize, 10i64, 8usize), (10, 0, 8), (10, 10, 0)] {
+        let cfg = Cfg { num_counters: nc, max_cost: mc, buffer_size: bs, ..Cfg::default() };
+        jobs.push(job(single(&cfg, flavor, vec![ins(1, 1, 0), Op::Settle]), &[0], "c20-zero"));
+    }
+    Spec {
+        id: "C20",
+        jobs,
+        oracle: o_c20,
+        interesting: |_, t| t.ledger.iter().any(|e| e.kind != CbKind::Exit),
+        rule: format!(
+            "full product of num_counters {{{}}} x max_cost {{-1,1,5,100}} x buffer_size {{1,2,8}} x buffer_items {{0,1,2,64}} x metrics x ignore_internal_cost x cleanup {{1 ms, 0.5 s, 2 s}}, each running one fixed 30-operation workload (inserts incl. coster / oversize cost, lookups, get_mut, update, remove, TTL expiry with ticks, insert_if_present, update_max_cost, evictions, clear, wait, a final insert) under every scheduling/select choice at preemption bound 0; oracle: no panic in any task, no worker terminated, wait() Ok and the final insert processed on the idle cache, store/policy agreement, policy invariants; zero num_counters / max_cost / buffer_size rejected with the matching error; non-trivial = an evict / reject callback fired",
+            if quick { "1..8, 63..70" } else { "1..70" }
+        ),
+        assumptions: all_std(),
+    }
+}
+
+// ------------------------------------------------------------------------------------------------
+// C15
+
+fn o_c15(p: &Program, t: &Trace) -> Vec<Finding> {
+    let mut out = Vec::new();
+    let fin = match t.snaps.iter().rev().find(|s| s.quiescent) {
+        Some(s) => s,
+        None => return out,
+    };
+    let m = match &fin.metrics {
+        Some(m) => m,
+        None => return out,
+    };
+    let capa = p.cfg.buffer_items;
+    let mut recs: Vec<&Rec> = t.recs.iter().filter(|r| matches!(r.op, Op::Get { .. } | Op::Mut { .. })).collect();
+    recs.sort_by_key(|r| r.call);
+    // batches as the ring buffer cuts them: a flush after every `capa` lookups (every lookup when capa is 0)
+    let size = capa.max(1);
+    let flushed = (recs.len() / size) * size;
+    if (m.gets_kept + m.gets_dropped) as usize != flushed {
+        out.push((
+            "gets-accounting".to_string(),
+            format!("{} lookups with buffer_items {}: {} lookups were flushed in batches but gets_kept {} + gets_dropped {} = {}", recs.len(), capa, flushed, m.gets_kept, m.gets_dropped, m.gets_kept + m.gets_dropped),
+        ));
+        return out;
+    }
+    if m.gets_kept as usize % size != 0 || m.gets_dropped as usize % size != 0 {
+        out.push(("gets-accounting".to_string(), format!("kept {} / dropped {} are not whole batches of {}", m.gets_kept, m.gets_dropped, size)));
+    }
+    // a batch is lost only when the policy queue (3 batches) is full: with a settle after every
+    // lookup (prompt draining) nothing may be dropped
+    let prompt = is_settled(p);
+    if (prompt || p.flavor == Flavor::Async) && m.gets_dropped != 0 {
+        out.push(("gets-dropped-without-pressure".to_string(), format!("{} lookups dropped although the policy worker drained its queue after every lookup", m.gets_dropped)));
+    }
+    // between two settles at most the batches beyond 3 undelivered ones can be dropped
+    if p.threads.len() == 1 {
+        let mut max_drop = 0usize;
+        let mut since = 0usize; // lookups since the last settle
+        let mut pending = 0usize; // lookups in the ring at the last settle
+        let mut all: Vec<&Rec> = t.recs.iter().collect();
+        all.sort_by_key(|r| r.call);
+        for r in all {
+            match r.op {
+                Op::Get { .. } | Op::Mut { .. } => since += 1,
+                Op::Settle => {
+                    let batches = (pending + since) / size;
+                    max_drop += batches.saturating_sub(3) * size;
+                    pending = (pending + since) % size;
+                    since = 0;
+                }
+                _ => {}
+            }
+        }
+        let batches = (pending + since) / size;
+        max_drop += batches.saturating_sub(3) * size;
+        if m.gets_dropped as usize > max_drop {
+            out.push(("gets-dropped-without-pressure".to_string(), format!("gets_dropped {} but the queue of 3 batches can have overflowed by at most {} lookups", m.gets_dropped, max_drop)));
+        }
+    }
+    // once processed, the estimate reflects the kept lookups
+    if m.gets_dropped == 0 {
+        // which lookups are still sitting in the ring (at most `leftover`, any keys) is not observable
+        let leftover = recs.len() - flushed;
+        let mut per: std::collections::BTreeMap<u64, usize> = Default::default();
+        for r in recs.iter() {
+            *per.entry(p.cfg.build_key(r.op.key().unwrap()).0).or_insert(0) += 1;
+        }
+        for (idx, n) in per {
+            let n = n.saturating_sub(leftover);
+            let est = fin.estimates.iter().find(|e| e.0 == idx).map(|e| e.1).unwrap_or(-1);
+            if est < n.min(16) as i64 {
+                out.push(("lookups-not-recorded".to_string(), format!("key {} was looked up at least {} times in flushed, kept batches but its estimate is {}", idx, n, est)));
+            }
+        }
+    }
+    out
+}
+
+pub fn c15(tier: &str, flavor: Flavor) -> Spec {
+    let quick = tier == "quick";
+    let mut jobs = Vec::new();
+    let alpha = [Op::Get { k: 1 }, Op::Get { k: 2 }, Op::Mut { k: 1 }];
+    let lens: Vec<usize> = if quick { vec![5] } else { vec![7] };
+    for capa in [0usize, 1, 2, 3] {
+        let cfg = Cfg { buffer_items: capa, metrics: true, num_counters: 1000, ..Cfg::default() };
+        for &l in &lens {
+            for s in sequences(&alpha, l) {
+                // prompt draining
+                let mut p = single(&cfg, flavor, settled(&s));
+                p.setup = vec![ins(1, 1, 0)];
+                jobs.push(job(p, &[0], "c15-settled"));
+                // the policy worker lags behind: its bounded queue may fill
+                let mut p = single(&cfg, flavor, s.clone());
+                p.setup = vec![ins(1, 1, 0)];
+                jobs.push(job(p, &[1], "c15-lagging"));
+            }
+        }
+        // long bursts: more than 3 undelivered batches
+        for l in [4 * capa.max(1) + 1, 6 * capa.max(1)] {
+            let s: Vec<Op> = (0..l).map(|i| if i % 2 == 0 { Op::Get { k: 1 } } else { Op::Get { k: 2 } }).collect();
+            let mut p = single(&cfg, flavor, s);
+            p.setup = vec![ins(1, 1, 0)];
+            jobs.push(job(p, &[1], "c15-burst"));
+        }
+    }
+    // two clients sharing the ring
+    let cfg = Cfg { buffer_items: 2, metrics: true, num_counters: 1000, ..Cfg::default() };
+    for a in bodies(&[Op::Get { k: 1 }, Op::Get { k: 2 }], 2) {
+        for b in bodies(&[Op::Get { k: 1 }, Op::Get { k: 2 }], 2) {
+            jobs.push(job(conc(&cfg, flavor, &[ins(1, 1, 0)], vec![a.clone(), b.clone()]), &[2], "c15-conc"));
+        }
+    }
+    Spec {
+        id: "C15",
+        jobs,
+        oracle: o_c15,
+        interesting: |_, t| t.snaps.last().and_then(|s| s.metrics.as_ref()).map(|m| m.gets_kept > 0).unwrap_or(false),
+        rule: format!(
+            "buffer_items in 0..=3, num_counters 1000, metrics on, key 1 resident / key 2 absent: every lookup sequence of length {} over {{G(1), G(2), M(1)}} (a) with a settle after every lookup, bound 0 and (b) unsettled with the policy worker as a scheduled task at preemption bound 1; bursts of 4*b+1 and 6*b lookups (overflow of the 3-batch queue); two clients x <= 2 lookups sharing the ring at bound 2. Oracle at the final quiescent point: gets_kept + gets_dropped == lookups flushed in whole batches, drops only beyond 3 undelivered batches and never with prompt draining, estimate(k) >= min(16, lookups of k in kept batches); non-trivial = a batch was kept",
+            lens[0]
+        ),
+        assumptions: all_std(),
+    }
 }
